@@ -6,8 +6,10 @@ import (
 	"context"
 	"errors"
 	"fmt"
+	"sync"
 	"sync/atomic"
 	"testing"
+	"time"
 )
 
 type wsModel struct {
@@ -359,4 +361,70 @@ func TestWitnessShare(t *testing.T) {
 		t.Fatalf("%d witness failures", fails)
 	}
 	fmt.Println("REPLAY-OK share")
+}
+
+
+// TestWitnessSubjectsLive: the subjects that hand a backlog to a new observer (unicast queue, replay buffer, the
+// behavior subject's current value) against one producer that keeps emitting from another goroutine while a slow
+// observer is still catching up. Bounded (rounds, backlog length, timing); it only backs UNDECIDED units.
+// The sequential definition for one sequential producer: the observer sees the backlog first and then the live
+// values, in emission order (strictly increasing here), and none of the live values is lost.
+func TestWitnessSubjectsLive(t *testing.T) {
+	const rounds, backlog, live = 12, 30, 8
+	type mk struct {
+		kind string
+		new  func() Subject[int]
+	}
+	for _, mkr := range []mk{
+		{"unicast", func() Subject[int] { return NewUnicastSubject[int](UnicastSubjectUnlimitedBufferSize) }},
+		{"replay", func() Subject[int] { return NewReplaySubject[int](ReplaySubjectUnlimitedBufferSize) }},
+		{"behavior", func() Subject[int] { return NewBehaviorSubject(0) }},
+	} {
+		for round := 0; round < rounds; round++ {
+			s := mkr.new()
+			for i := 1; i <= backlog; i++ {
+				s.Next(i)
+			}
+			var mu sync.Mutex
+			var got []int
+			started := make(chan struct{})
+			var once sync.Once
+			var wg sync.WaitGroup
+			wg.Add(1)
+			go func() {
+				defer wg.Done()
+				<-started
+				for v := backlog + 1; v <= backlog+live; v++ {
+					s.Next(v)
+				}
+			}()
+			sub := s.Subscribe(NewObserver(func(v int) {
+				once.Do(func() { close(started) })
+				time.Sleep(100 * time.Microsecond)
+				mu.Lock()
+				got = append(got, v)
+				mu.Unlock()
+			}, func(error) {}, func() {}))
+			wg.Wait()
+			sub.Unsubscribe()
+			mu.Lock()
+			snap := append([]int{}, got...)
+			mu.Unlock()
+			want := backlog + live
+			if mkr.kind == "behavior" {
+				want = 1 + live
+			}
+			bad := len(snap) != want
+			for i := 1; i < len(snap); i++ {
+				if snap[i] <= snap[i-1] {
+					bad = true
+				}
+			}
+			if bad {
+				fmt.Printf("REPLAY-FAIL subject[%s] live producer: backlog 1..%d, then %d..%d from another goroutine during the replay to a slow observer: got %v\n", mkr.kind, backlog, backlog+1, backlog+live, snap)
+				t.Errorf("WITNESS kind=%s round=%d backlog=1..%d then a live producer %d..%d during the replay to a slow observer: got %v", mkr.kind, round, backlog, backlog+1, backlog+live, snap)
+				break
+			}
+		}
+	}
 }
